@@ -147,8 +147,17 @@ def gen_tree(rng: Any, *, max_depth: int = 4, max_fanout: int = 4, max_nodes: in
                     free_pairs.remove(others[0])
                 else:
                     kind = "static"
+            overlap = None
+            if kind in ("factory", "afactory"):
+                # a factory that is also declared for a type which a static resource published *earlier by this very component, in
+                # this phase* already holds under the same name: legal - its product is filed under the types that are still free
+                held = [r0["type"] for r0 in resources.values() if r0["by"] == path and r0["phase"] == phase and r0["name"] == n
+                        and r0["given_name"] == given and r0["kind"] == "static" and r0["type"] != t
+                        and not any(r1.get("overlap_type") == r0["type"] and r1["name"] == n for r1 in resources.values())]
+                if held and rng.random() < 0.6:
+                    overlap = held[0]
             resources[rid] = {"type": t, "name": n, "given_name": given, "kind": kind, "extra_type": extra, "by": path, "phase": phase,
-                              "teardown": rng.random() < 0.3}
+                              "teardown": rng.random() < 0.3, "overlap_type": overlap}
             published.append(rid)
             burst = rng.choice([0] * 8 + [5, 49, 60, 200]) if wait_heavy else 0
             return ["publish", rid, rng.randint(0, 2), burst]
@@ -369,6 +378,7 @@ class Run:
         self.sub_published: dict[str, Any] = {}
         self.via_inject = 0
         self.annotated_factories = 0
+        self.overlapping_factories = 0
         self.awaitable_object_factories = 0
         self.fragile_reprs = 0
         self.shared_registrations = 0
@@ -628,7 +638,10 @@ class Run:
                     run.factory_calls[rid] = run.factory_calls.get(rid, 0) + 1
                     return Value(rid, run.factory_calls[rid])
 
-                if int(rid) % 3 == 0:
+                if r.get("overlap_type") is not None:
+                    add_resource_factory(factory, r["given_name"], types=[RTYPES[r["overlap_type"]], T] if int(rid) % 2 else [T, RTYPES[r["overlap_type"]]])
+                    self.overlapping_factories += 1
+                elif int(rid) % 3 == 0:
                     # the types come from the return annotation, a Union of the awaited type and one nobody asks for
                     from typing import Union
 
@@ -646,7 +659,10 @@ class Run:
                     await checkpoint()
                     return Value(rid, n)
 
-                if int(rid) % 3 == 0:
+                if r.get("overlap_type") is not None:
+                    add_resource_factory(afactory, r["given_name"], types=[RTYPES[r["overlap_type"]], T] if int(rid) % 2 else [T, RTYPES[r["overlap_type"]]])
+                    self.overlapping_factories += 1
+                elif int(rid) % 3 == 0:
                     from typing import Union
 
                     afactory.__annotations__["return"] = Union[type(f"Extra{rid}", (), {}), T]
@@ -1016,6 +1032,8 @@ def check_success(run: Run, *, exact_schedule: bool = True) -> tuple[list[dict[s
     # ownership: published resources visible in the caller's context; teardown probes run LIFO at exit
     if run.via_inject:
         inc("optional_lookups_through_inject", run.via_inject)
+    if run.overlapping_factories:
+        inc("factories_also_declared_for_a_pair_that_a_static_resource_holds", run.overlapping_factories)
     if run.annotated_factories:
         inc("factories_typed_by_a_union_return_annotation", run.annotated_factories)
     if run.late_context_probes:
